@@ -161,9 +161,9 @@ def run(ctx, res):
                 if idx.get("k") == "struct":
                     for f in idx["fields"]:
                         u = un.unit(f["e"])
-                        if u == U.BR or u == "MIX" or u == U.CH:
+                        if u in (U.BR, "MIX", U.CH, U.N):
                             cls = None
-                            detail = "slice bound `%s` is %s: it can fall inside a multi-byte character" % (T.render(f["e"]), {"BR": "a raw byte offset (boundary + 1 without an ASCII guard)", "CH": "a character count", "MIX": "a mix of byte and character units"}[u])
+                            detail = "slice bound `%s` is %s: it can fall inside a multi-byte character" % (T.render(f["e"]), {"BR": "a raw byte offset (boundary + 1 without an ASCII guard)", "CH": "a character count", "MIX": "a mix of byte and character units", "N": "a plain number, not a position obtained from the string"}[u])
             classes[cls or "UNPROVEN"] = classes.get(cls or "UNPROVEN", 0) + 1
             ledger.append({"fn": fn, "site": site, "class": cls or "UNPROVEN", "loc": o["loc"]})
             if cls is None:
